@@ -328,6 +328,17 @@ Theorem C01_hourly_scaler_by_name : forall s d name, wf_hourly s -> hourly_to_do
 Proof. exact (hourly_scaler_restored_l hpaths). Qed.
 Print Assumptions C01_hourly_scaler_by_name.
 
+(* feature names are arbitrary strings (supplemental columns such as "Humidity", "Occ Flag", " wind ") and come back
+   verbatim -- the reloaded model asks the reporting data for the very columns the fitted one used *)
+Theorem C01_hourly_feature_names_verbatim : forall s d, wf_hourly s -> hourly_to_doc s = Some d ->
+  exists s', hourly_from_doc hpaths d = Some s' /\
+             hs_ts_features s' = hs_ts_features s /\ hs_cat_features s' = hs_cat_features s.
+Proof.
+  intros s d Hwf Hd. destruct (hourly_roundtrip_fields_l hpaths s d Hwf Hd) as (s' & Hs & _ & _ & _ & _ & Hts & Hcat & _).
+  exists s'. split; [exact Hs|]. split; assumption.
+Qed.
+Print Assumptions C01_hourly_feature_names_verbatim.
+
 (* looking the stored entries up by name is harmless only along the order they were written in *)
 Theorem C01_hourly_name_lookup_same_order : forall fs : list (string * json),
   NoDup (map fst fs) -> reorder (map fst fs) fs = Some fs.
@@ -433,6 +444,33 @@ Proof.
   - eexists. split; [vm_compute; reflexivity|]. reflexivity.
 Qed.
 Print Assumptions C01_regression_scaler_by_settings_order_refuted.
+
+(* regression witness (seeded change C01-4): supplemental columns with upper-case letters and blanks.  As coded the
+   names come back verbatim (only the KEYS of the stored feature_scaler dictionary are lower-cased by the
+   SerializeModel string config, which is harmless: each feature still gets its own statistics); a writer that also
+   passes the feature names through that config hands the reloaded model names no data frame has. *)
+Definition h_state_names : hourly_state :=
+  {| hs_settings := JObj [("train_features", JArr [JStr "temperature"]);
+                          ("supplemental_time_series_columns", JArr [JStr "Humidity"; JStr " wind "])];
+     hs_clusters := [(1, 0, 0)]%Z; hs_bin_edges := [neg_infinity; infinity]; hs_edge_coeffs := None;
+     hs_ts_features := ["temperature"; " wind "; "Humidity"]; hs_cat_features := ["temporal_cluster_0"; "Occ Flag"];
+     hs_loc := [55%float; 5%float; 50%float]; hs_scale := [16%float; 1%float; 20%float]; hs_y := (1.5%float, 0.25%float);
+     hs_coef := [[0.5%float]]; hs_intercept := [0.125%float]; hs_metrics := JObj [];
+     hs_warnings := []; hs_dq := []; hs_error := JObj []; hs_tz := "UTC"; hs_version := "1.2.3" |}.
+
+Theorem C01_regression_lowercased_names_refuted :
+  (exists d s', hourly_to_doc h_state_names = Some d /\ hourly_from_doc hpaths d = Some s' /\
+                hs_ts_features s' = ["temperature"; " wind "; "Humidity"] /\
+                hs_cat_features s' = ["temporal_cluster_0"; "Occ Flag"] /\
+                bind (field "feature_scaler" d) (field "humidity") = Some (JArr [JNum 50%float; JNum 20%float]) /\
+                feature_scaler_of s' "Humidity" = Some (50%float, 20%float)) /\
+  (exists d s', hourly_to_doc_lowercasing h_state_names = Some d /\ hourly_from_doc hpaths d = Some s' /\
+                hs_ts_features s' = ["temperature"; "wind"; "humidity"] /\
+                hs_cat_features s' = ["temporal_cluster_0"; "occ flag"]).
+Proof.
+  split; eexists; eexists; (split; [vm_compute; reflexivity|]); (split; [vm_compute; reflexivity|]); repeat split; vm_compute; reflexivity.
+Qed.
+Print Assumptions C01_regression_lowercased_names_refuted.
 
 (* ================================================================== CalTRACK hourly *)
 From V Require Import Model.CalTrackDoc Proofs.CalTrackDocProofs.
